@@ -337,6 +337,14 @@ class Program:
         except OSError:
             kf = set()
         from .normalise import dissolve_subrecords, inline_generator_helpers, restore_param_names, unproperty_known_methods
+        from .normalise import deque_wrappers_as_subclasses
+
+        try:
+            with open(os.path.join(os.path.dirname(os.path.abspath(__file__)), "known_classes.txt")) as fh:
+                kc0 = {ln.strip() for ln in fh if ln.strip()}
+        except OSError:
+            kc0 = set()
+        self.deque_wrappers = deque_wrappers_as_subclasses({m.name: m.tree for m in self.modules.values()}, kc0)
 
         self.expanded_generators = inline_generator_helpers({m.name: m.tree for m in self.modules.values()}, kf)
         from .normalise import inline_bound_method_locals, unwrap_lock_holders
